@@ -318,6 +318,7 @@ func runC02(c *Ctx) {
 	runC02Rest(c, q, funcs, lc)
 	runC02Resync(c, q, funcs)
 	runC02Chain(c, funcs)
+	runDoneHandOff(c, "R11")
 }
 
 func posOf(p *Prog, in ssa.Instruction) string {
